@@ -39,8 +39,14 @@ def embedStep (outer inner : Sorted) (uva uvk : Bool) (depth : Nat) : Except Err
   let ePok := ePok ++ i.pok
   let nm ← checkNoDupes nm outer.kwo
   let eKwo := pupdate [] outer.kwo
-  let _ ← checkNoDupes nm i.kwo
+  let nm ← checkNoDupes nm i.kwo
   let eKwo := pupdate eKwo i.kwo
+  -- the star parameters of the result must not be named like anything collected so far
+  -- (as after `fix:` D29: provenance is keyed by name)
+  let eVa := if uva then i.va else outer.va
+  let eVk := if uvk then i.vk else outer.vk
+  let nm ← checkNoDupes nm eVa.toList
+  let _ ← checkNoDupes nm eVk.toList
   -- provenance: the forwarded star parameters of `outer` are dropped from its map
   -- *before* it is laid over the inner one (as after `fix:` D3)
   let oSrc := outer.src
@@ -48,8 +54,7 @@ def embedStep (outer inner : Sorted) (uva uvk : Bool) (depth : Nat) : Except Err
   let oSrc := match outer.vk with | some p => if uvk then dpop oSrc p.name else oSrc | none => oSrc
   let src := dupdate i.src oSrc
   let depths := mergeDepths outer.depths (copyDepths i.depths depth)
-  pure { pos := ePos, pok := ePok, va := if uva then i.va else outer.va,
-         kwo := eKwo, vk := if uvk then i.vk else outer.vk, src := src, depths := depths }
+  pure { pos := ePos, pok := ePok, va := eVa, kwo := eKwo, vk := eVk, src := src, depths := depths }
 
 def embedFold (uva uvk : Bool) : Sorted → Nat → List USig → Except Err Sorted
   | acc, _, [] => .ok acc
